@@ -202,7 +202,7 @@ private theorem orderedB_sound (fuel : Nat) (es : List Edge) : ∀ (items : List
       not_true_eq_false, false_or, Bool.or_eq_false_iff] at this
     rcases this with ⟨h3, h4⟩ | h3
     · rcases hc with hc | hc <;> simp_all
-    · exact reachB_sound _ _ _ h3
+    · exact reachFrom_sound (by simpa using h3)
 
 private theorem mem_accessesOf {b : Block} {x : Node} {a : Nat × Kind} (h : a ∈ accessesOf b x) :
     Touches b x a.1 a.2 := by
@@ -282,7 +282,7 @@ private theorem histOrderedB_sound (fuel : Nat) (es : List Edge) : ∀ (h : List
     rcases this with (h3 | ⟨h3, h4⟩) | h3
     · exact absurd hres h3
     · rcases hconf with hc' | hc' <;> simp_all
-    · exact reachB_sound _ _ _ h3
+    · exact reachFrom_sound (by simpa using h3)
 
 private theorem depsJustifiedB_sound (init : Queue) : ∀ (h : List Access) (pre : List Access)
     (dss : List (List Dep)), depsJustifiedB init pre h dss = true → DepsJustified init pre h dss := by
